@@ -63,6 +63,7 @@ class Params:
         self.unique_literals = False
         self.empty_blocks = 0.1
         self.const_bias = 0.0       # bias toward constant sub-expressions
+        self.nonascii = False       # non-ASCII characters in string literals
         for k, v in kw.items():
             if k == 'features':
                 self.features.update(v)
@@ -257,7 +258,7 @@ class Gen:
             return A.Str('u%dq' % self.lit_n)
         n = self.i(0, 6)
         alphabet = 'abXY z09,.;-'
-        if self.chance(0.1):
+        if self.p.nonascii and self.chance(0.2):
             alphabet += '\xe9\xdf\xb1#%'
         s = ''.join(alphabet[self.i(0, len(alphabet) - 1)] for _ in range(n))
         return A.Str(s)
@@ -830,6 +831,11 @@ class Gen:
             return self.exit_stmt()
         if r == 28 and self.feat('print_using'):
             return [self.print_using()]
+        if r == 29 and self.scope.kind == 'function':
+            sig = self.procs[self.in_proc_idx]
+            e = self.str_expr(1) if sig.rt == '$' else \
+                self.num_expr(2, t=sig.rt)
+            return [A.RetAssign(sig.name, e, sig.rt)]
         return [self.assign()]
 
     def assign(self):
@@ -936,10 +942,12 @@ class Gen:
             t2 = self.pick('%&!#')
             if float(int(a)) == a and float(int(b)) == b:
                 ea, eb = self.mk_signed(t2, a), self.mk_signed(t2, b)
-        saved = v.rng
+        saved_do = self.do_depth
+        self.do_depth = 0
         self.for_depth += 1
         body = self.block(depth - 1)
         self.for_depth -= 1
+        self.do_depth = saved_do
         v.rng = None
         v.reserved = False
         self.note('for')
@@ -968,14 +976,22 @@ class Gen:
                 ge2 = A.Bin('OR', ge, A.Un('NOT', A.Paren(extra), '%'), '%')
             lt, ge = lt2, ge2
         c.rng = (0, max(n - 1, 0))
-        self.do_depth += 1
+        kind = self.pick(['while', 'do_while', 'do_until', 'loop_while',
+                          'loop_until', 'forever'])
+        saved_depths = (self.do_depth, self.for_depth)
+        if kind == 'while':
+            # EXIT DO / EXIT FOR would leave an enclosing loop and skip the
+            # counter increment
+            self.do_depth = 0
+            self.for_depth = 0
+        else:
+            self.do_depth += 1
+            self.for_depth = 0
         body = self.block(depth - 1)
-        self.do_depth -= 1
+        self.do_depth, self.for_depth = saved_depths
         c.rng = None
         incr = A.Assign(clv, A.Bin('+', clv, self.mklit(c.t, 1), c.t))
         body = body + [incr]
-        kind = self.pick(['while', 'do_while', 'do_until', 'loop_while',
-                          'loop_until', 'forever'])
         self.note(kind)
         if n >= 2:
             self.note('loop_2plus')
@@ -1421,8 +1437,7 @@ class Gen:
             else:
                 e = self.num_expr(2, t=sig.rt)
             ra = A.RetAssign(sig.name, e, sig.rt)
-            pos = self.i(0, len(body))
-            body.insert(pos, ra)
+            body.append(ra)
         self.scope, self.in_proc_idx, self.stmt_budget, self.for_depth, \
             self.do_depth = saved
         return A.Proc(sig.kind, sig.name, sig.params, sig.static, body,
